@@ -133,7 +133,7 @@ func stuckInCodeUnderTest(stack string) (string, bool) {
 		}
 	}
 	blocked := false
-	for _, p := range []string{"chan send", "chan receive", "select", "sync.Mutex.Lock", "semacquire", "sync.RWMutex.Lock", "sync.RWMutex.RLock", "sync.WaitGroup.Wait", "sync.Cond.Wait"} {
+	for _, p := range []string{"chan send", "chan receive", "select", "sync.Mutex.Lock", "semacquire", "sync.RWMutex.Lock", "sync.RWMutex.RLock", "sync.WaitGroup.Wait", "sync.Cond.Wait", "sleep"} {
 		// also "chan receive (nil chan)", "select (no cases)"
 		if strings.HasPrefix(state, p) {
 			blocked = true
@@ -142,13 +142,14 @@ func stuckInCodeUnderTest(stack string) (string, bool) {
 	if !blocked {
 		return "", false
 	}
+	via := ""
 	for _, ln := range lines[1:] {
 		if strings.HasPrefix(ln, "\t") {
 			continue
 		}
 		fn := ln
 		switch {
-		case strings.HasPrefix(fn, "runtime."), strings.HasPrefix(fn, "sync."), strings.HasPrefix(fn, "internal/"):
+		case strings.HasPrefix(fn, "runtime."), strings.HasPrefix(fn, "sync."), strings.HasPrefix(fn, "internal/"), strings.HasPrefix(fn, "time."), strings.HasPrefix(fn, "syscall."):
 			continue
 		case strings.HasPrefix(fn, "github.com/hashicorp/raft-wal/verifhook"):
 			return "", false
@@ -156,9 +157,20 @@ func stuckInCodeUnderTest(stack string) (string, bool) {
 			if i := strings.LastIndex(fn, "("); i > 0 {
 				fn = fn[:i]
 			}
-			return state + " in " + strings.TrimPrefix(fn, "github.com/hashicorp/raft-wal"), true
-		default:
+			return state + " in " + strings.TrimPrefix(fn, "github.com/hashicorp/raft-wal") + via, true
+		case strings.HasPrefix(fn, "verif/sim/"), strings.HasPrefix(fn, "main."):
+			// the harness itself is what blocks
 			return "", false
+		default:
+			// a dependency (bbolt waiting for its file lock, ...): raft-wal is
+			// blocked if it is the caller; keep looking
+			if via == "" {
+				if i := strings.LastIndex(fn, "("); i > 0 {
+					fn = fn[:i]
+				}
+				via = " via " + fn
+			}
+			continue
 		}
 	}
 	return "", false
